@@ -116,3 +116,48 @@ fn('dsplib::rms', M, sig='dsplib::real_t (const dsplib::arr_cmplx &)', key='rms(
    loops={1: {'facts': ['DOT_BASE(re_data(arr), 0, 1, re_data(arr))', 'DOT_STEP(re_data(arr), 0, 1, re_data(arr), i)',
                         'DOT_BASE(im_data(arr), 0, 1, im_data(arr))', 'DOT_STEP(im_data(arr), 0, 1, im_data(arr), i)'],
               'inv': [('acc', 'sum == DOT(re_data(arr), 0, 1, re_data(arr), i) + DOT(im_data(arr), 0, 1, im_data(arr), i)'), ('nonneg', 'sum >= 0')]}})
+
+# complex powers through the polar form: |x|^n * exp(i * n * arg x), arg the principal argument (so (-1)^0.5 = i).
+# CPW_RE / CPW_IM name the two components (opaque symbols; CPW_DEF is their defining equation, used where the scalar is proved)
+import z3 as _z3
+_R = _z3.RealSort()
+CPW_RE, CPW_IM = _z3.Function('cpow_re', _R, _R, _R, _R), _z3.Function('cpow_im', _R, _R, _R, _R)
+
+
+def cpw_def(a, b, n):
+    a, b, n = [getattr(t, 'z', t) for t in (a, b, n)]
+    L = ENV
+    mag = L['POW'](L['SQRT'](a * a + b * b), n)
+    ang = L['ATAN2'](b, a) * n
+    return _z3.And(CPW_RE(a, b, n) == mag * L['COS'](ang), CPW_IM(a, b, n) == mag * L['SIN'](ang))
+
+
+ENV.update({'CPW_RE': CPW_RE, 'CPW_IM': CPW_IM, 'CPW_DEF': cpw_def})
+CPW = lambda r, x, n: 'And({r}.re == CPW_RE({x}.re, {x}.im, {n}), {r}.im == CPW_IM({x}.re, {x}.im, {n}))'.format(r=r, x=x, n=n)
+fn('dsplib::power', M, sig='dsplib::cmplx_t (dsplib::cmplx_t, dsplib::real_t)', key='power(cmplx,real)', serves=['C17', 'C05'], pure=True, extra_env=ENV, throws='False',
+   post_facts=['CPW_DEF(x.re, x.im, n)'],
+   ensures=[('polar_form', 'And(result.re == POW(SQRT(x.re*x.re + x.im*x.im), n) * COS(ATAN2(x.im, x.re) * n), result.im == POW(SQRT(x.re*x.re + x.im*x.im), n) * SIN(ATAN2(x.im, x.re) * n))'),
+            ('named', CPW('result', 'x', 'n'))])
+fn('dsplib::power', M, sig='dsplib::arr_cmplx (dsplib::cmplx_t, const dsplib::arr_real &)', key='power(cmplx,arr_real)', serves=['C17', 'C05'], pure=True, extra_env=ENV, throws='False',
+   ensures=[('length', 'result.len == n.len'),
+            ('polar_form', 'forall(lambda k: Implies(And(0 <= k, k < n.len), %s))' % CPW('result[k]', 'x', 'n[k]'))],
+   loops={1: {'facts': ['CPW_DEF(x.re, x.im, n[i])'],
+              'inv': [('len', 'r.len == n.len'), ('done', 'forall(lambda k: Implies(And(0 <= k, k < i), %s))' % CPW('r[k]', 'x', 'n[k]'))]}})
+fn('dsplib::_power', M, sig='(const base_array<dsplib::cmplx_t> &, dsplib::real_t)', key='_power(arr_cmplx,real)', serves=['C17', 'C05'], pure=True, extra_env=ENV, throws='False',
+   ensures=[('length', 'result.len == x.len'),
+            ('polar_form', 'forall(lambda k: Implies(And(0 <= k, k < x.len), %s))' % CPW('result[k]', 'x[k]', 'n'))],
+   loops={1: {'inv': [('len', 'r.len == x.len'), ('done', 'forall(lambda k: Implies(And(0 <= k, k < i), %s))' % CPW('r[k]', 'x[k]', 'n'))]}})
+fn('dsplib::_power', M, sig='(const base_array<dsplib::cmplx_t> &, const base_array<double> &)', key='_power(arr_cmplx,arr_real)', serves=['C17', 'C05'], pure=True, extra_env=ENV,
+   throws='x.len != n.len',
+   ensures=[('length', 'result.len == x.len'),
+            ('polar_form', 'forall(lambda k: Implies(And(0 <= k, k < x.len), %s))' % CPW('result[k]', 'x[k]', 'n[k]'))],
+   loops={1: {'inv': [('len', 'r.len == x.len'), ('done', 'forall(lambda k: Implies(And(0 <= k, k < i), %s))' % CPW('r[k]', 'x[k]', 'n[k]'))]}})
+for T, nm in (('dsplib::real_t', 'real'), ('const dsplib::arr_real &', 'arr_real')):
+    fn('dsplib::power', M, sig='dsplib::arr_cmplx (const dsplib::arr_cmplx &, %s)' % T, key='power(arr_cmplx,%s)' % nm, serves=['C17', 'C05'], pure=True, extra_env=ENV,
+       throws='False' if nm == 'real' else 'x.len != n.len',
+       ensures=[('length', 'result.len == x.len'),
+                ('polar_form', 'forall(lambda k: Implies(And(0 <= k, k < x.len), %s))' % CPW('result[k]', 'x[k]', 'n' if nm == 'real' else 'n[k]'))])
+    fn('dsplib::power', M, sig='dsplib::arr_real (const dsplib::arr_real &, %s)' % T, key='power(arr_real,%s)' % nm, serves=['C17', 'C05'], pure=True, extra_env=ENV,
+       throws='False' if nm == 'real' else 'x.len != n.len',
+       ensures=[('length', 'result.len == x.len'),
+                ('definition', 'forall(lambda k: Implies(And(0 <= k, k < x.len), result[k] == POW(x[k], %s)))' % ('n' if nm == 'real' else 'n[k]'))])
